@@ -92,6 +92,32 @@ struct Case<'a> {
     in_progress: Vec<Hash>,
     clean: bool,
     label: String,
+    /// invalid siblings a peer handed to A (filed as side blocks, never valid tips)
+    invalid: &'a BTreeMap<Hash, u64>,
+}
+
+/// (lowest block id among the block files, ids of the invalid side blocks among them that a start-up
+/// winds without utxo validation: until a genesis period of blocks is loaded above the lowest file,
+/// unless block 1 is there, `wind_chain` validates with `validate_against_utxo = false`)
+fn unvalidated_zone(h: &History, case: &Case<'_>) -> (u64, Vec<u64>) {
+    let mut lo = u64::MAX;
+    let mut inv = vec![];
+    for k in case.files.keys().filter(|k| k.starts_with(BLOCK_DIR) && k.ends_with(".sai")) {
+        let name = &k[BLOCK_DIR.len()..k.len() - 4];
+        let hash: Hash = match name.split('-').nth(1).and_then(|x| hex::decode(x).ok()).and_then(|v| v.try_into().ok()) {
+            Some(x) => x,
+            None => continue,
+        };
+        if let Some(id) = case.invalid.get(&hash) {
+            inv.push(*id);
+            lo = lo.min(*id);
+        } else if h.b.store.has(&hash) {
+            lo = lo.min(h.b.store.get(&hash).id);
+        }
+    }
+    let gp = h.cfg.params.gp;
+    let zone: Vec<u64> = if lo <= 1 { vec![] } else { inv.into_iter().filter(|id| *id <= lo + gp).collect() };
+    (lo, zone)
 }
 
 async fn boot_and_judge(h: &mut History, case: Case<'_>, rng: &mut Rng, rep: &mut Report, witness: &serde_json::Value) {
@@ -129,20 +155,53 @@ async fn boot_and_judge(h: &mut History, case: Case<'_>, rng: &mut Rng, rep: &mu
             return;
         }
     }
+    let (lowest_file_id, zone) = unvalidated_zone(h, &case);
+    if !zone.is_empty() {
+        rep.count("boots_with_an_invalid_side_block_in_the_unvalidated_first_genesis_period");
+    }
     if let Err(p) = node.init().await {
+        let cause = if !zone.is_empty() && p.message.contains("invalid total supply") { "|cause=invalid-side-block-wound-without-utxo-validation-in-the-first-genesis-period-of-files" } else { "" };
         rep.violation(
-            &format!("C12|clause=restart-panics|{}", p.signature()),
-            &format!("boot from the files of case '{}' panicked at {}:{}: {}", case.label, p.rel_file(), p.line, p.message),
+            &format!("C12|clause=restart-panics|{}{}", p.signature(), cause),
+            &format!("boot from the files of case '{}' (lowest block file {}, invalid side blocks on disk within a genesis period of it: {:?}) panicked at {}:{}: {}", case.label, lowest_file_id, zone, p.rel_file(), p.line, p.message),
             wit(),
         );
         return;
     }
     let (tip_id, tip) = node.tip().await;
+    // ---- the mining thread learns the tip only from the event the start-up sends it; without it the
+    // node cannot produce the golden ticket the next blocks may need
+    if tip != [0; 32] {
+        rep.count("miner_target_checks");
+        if node.miner_target.map(|(_, h)| h) != Some(tip) {
+            rep.violation(
+                if node.miner_target.is_none() { "C12|clause=miner-not-told-the-tip-after-restart|told=nothing" } else { "C12|clause=miner-not-told-the-tip-after-restart|told=another-block" },
+                &format!("case '{}': the restarted node sits at {} ({}) but the last block its mining thread was told to mine on is {:?}: it cannot produce a golden ticket for its tip and cannot extend the chain once one is needed", case.label, tip_id, hex::encode(&tip[..4]), node.miner_target.map(|(i, h)| (i, hex::encode(&h[..4])))),
+                wit(),
+            );
+            return;
+        }
+    }
     // ---- tip among the allowed blocks
     let allowed = tip == case.mark.tip || h.b.store.has(&tip) && (h.b.store.is_ancestor(&tip, &case.mark.tip) || case.mark.known.contains(&tip) || case.in_progress.contains(&tip));
     if !allowed {
+        // an invalid side block as tip: either the loader took it as its parentless first block (the
+        // oldest file at the prune horizon; the real chain is held but, arriving after it, not
+        // adopted), or it was put on top of its parent, which only validation would have prevented
+        let sig = if tip == [0; 32] {
+            "C12|clause=restart-tip-not-allowed|tip=none".to_string()
+        } else if case.invalid.contains_key(&tip) {
+            let chain = node.chain.read().await;
+            let parent = chain.blocks.get(&tip).map(|b| b.previous_block_hash).unwrap_or([0; 32]);
+            let rooted = !chain.blocks.contains_key(&parent);
+            let main_held = chain.blocks.contains_key(&case.mark.tip);
+            rep.count(if rooted { "restarts_rooted_on_an_invalid_side_block" } else { "restarts_with_invalid_side_block_on_its_parent" });
+            format!("C12|clause=restart-tip-not-allowed|tip=invalid-side-block|{}", if rooted && main_held { "cause=restarted-on-abandoned-branch-main-chain-held-but-not-adopted" } else if rooted { "taken-as-parentless-first-block" } else if zone.contains(&tip_id) { "cause=wound-without-utxo-validation-in-the-first-genesis-period-of-files" } else { "wound-on-its-parent-without-validation" })
+        } else {
+            "C12|clause=restart-tip-not-allowed|tip=unknown-block".to_string()
+        };
         rep.violation(
-            if tip == [0; 32] { "C12|clause=restart-tip-not-allowed|tip=none" } else { "C12|clause=restart-tip-not-allowed|tip=unknown-block" },
+            &sig,
             &format!("case '{}': restarted node sits at {} ({}), pre-crash tip was {} ({})", case.label, tip_id, hex::encode(&tip[..4]), case.mark.tip_id, hex::encode(&case.mark.tip[..4])),
             wit(),
         );
@@ -403,6 +462,7 @@ async fn one_history(ctx: &Ctx, rng: &mut Rng, gp: u64, len: usize, fork_permill
     known.insert(h.b.genesis);
     marks.push(mark_of(&h, &a, &known).await);
     let mut delivered: Vec<(usize, Hash)> = vec![];
+    let mut invalid: BTreeMap<Hash, u64> = BTreeMap::new();
     for _ in 0..len {
         match h.step(rng).await {
             Ok(info) => {
@@ -420,6 +480,38 @@ async fn one_history(ctx: &Ctx, rng: &mut Rng, gp: u64, len: usize, fork_permill
                 known.insert(info.hash);
                 delivered.push((before_ops, info.hash));
                 marks.push(mark_of(&h, &a, &known).await);
+                // now and then a peer also sends a sibling of the new tip that its creator signed but
+                // that does not validate (difficulty or treasury off), with a timestamp just before
+                // or after the tip's: A files it as a side block without validating it, and the
+                // file is read back at every restart
+                if after_tip.1 == info.hash && rng.chance(1, 6) {
+                    let mut blk = h.b.store.get(&info.hash).block.clone();
+                    let creator = h.b.actors[0].clone();
+                    if blk.creator == creator.pk {
+                        let before = rng.chance(2, 3);
+                        blk.timestamp = if before { blk.timestamp - 1 } else { blk.timestamp + 1 };
+                        if rng.chance(1, 2) {
+                            blk.difficulty += 3;
+                        } else {
+                            blk.treasury += 1_000;
+                        }
+                        crate::props::c04::reseal(&mut blk, &creator, false);
+                        let sib = block_bytes(&blk);
+                        invalid.insert(blk.hash, blk.id);
+                        if !matches!(deliver(&mut a, &sib).await, Ok(true)) {
+                            rep.inconclusive("node A panicked on an invalid sibling of its tip");
+                            return;
+                        }
+                        if a.tip().await.1 == info.hash {
+                            rep.count(if before { "invalid_tip_siblings_filed.timestamp-before-the-tip" } else { "invalid_tip_siblings_filed.timestamp-after-the-tip" });
+                            marks.push(mark_of(&h, &a, &known).await);
+                        } else {
+                            rep.count("invalid_tip_sibling_changed_the_running_tip");
+                            rep.note("an invalid sibling moved node A's tip: history abandoned");
+                            return;
+                        }
+                    }
+                }
             }
             Err(e) => {
                 rep.count("history_stopped_early");
@@ -454,7 +546,7 @@ async fn one_history(ctx: &Ctx, rng: &mut Rng, gp: u64, len: usize, fork_permill
         let m = mark_at(k);
         let clean = marks.iter().any(|mm| mm.ops == k);
         let in_progress: Vec<Hash> = delivered.iter().filter(|(start, _)| *start <= k && m.ops <= *start).map(|(_, h)| *h).collect();
-        boot_and_judge(&mut h, Case { files: files.clone(), mark: m, in_progress: in_progress.clone(), clean, label: format!("ops[0..{}] complete{}", k, if clean { " (clean)" } else { "" }) }, rng, rep, &witness).await;
+        boot_and_judge(&mut h, Case { files: files.clone(), mark: m, in_progress: in_progress.clone(), clean, label: format!("ops[0..{}] complete{}", k, if clean { " (clean)" } else { "" }), invalid: &invalid }, rng, rep, &witness).await;
         if k == journal.len() {
             break;
         }
@@ -481,7 +573,7 @@ async fn one_history(ctx: &Ctx, rng: &mut Rng, gp: u64, len: usize, fork_permill
                     rep.count("torn_variants.wallet");
                 }
                 let mk = mark_at(k);
-                boot_and_judge(&mut h, Case { files: f, mark: mk, in_progress: in_progress.clone(), clean: false, label: format!("op {} ({:?} {}) torn at byte {} of {}", k, op.kind, op.key.rsplit('/').next().unwrap_or(""), cut, op.data.len()) }, rng, rep, &witness).await;
+                boot_and_judge(&mut h, Case { files: f, mark: mk, in_progress: in_progress.clone(), clean: false, label: format!("op {} ({:?} {}) torn at byte {} of {}", k, op.kind, op.key.rsplit('/').next().unwrap_or(""), cut, op.data.len()), invalid: &invalid }, rng, rep, &witness).await;
             }
         }
         apply_op(&mut files, &op, None);
